@@ -8,7 +8,7 @@ from ..genabs import lattice, skel
 from ..genabs.taint import s_taint
 from ..genabs.driver import Session, run_program
 from ..genabs.shapes import Namer
-from ..genabs.values import Elem
+from ..genabs.values import Elem, Tmpl
 from ..index import walk_no_nested
 from ._genprops import ob
 
@@ -99,6 +99,10 @@ def program_tree(edited=False):
             if d2 == d or (d2 in ("net/client", "net/server")):
                 continue
             body.append(f(nm.name("x"), names[d2][0]))
+        if d == "map":
+            # the same enum with an underlying-type override here and plain everywhere else: which use is resolved first
+            # depends on the enumeration order, and neither may leak into the other
+            body.insert(0, f("overridden_width", Tmpl([names["pub"][0], ":short"])))
         if edited:
             body.append(f("added_by_the_edit", "short"))
         kids = [Elem("enum", {"name": en, "type": width}, [Elem("value", {"name": nm.name("V")}, text=ordinal("0"))], comment=nm.text("c")),
@@ -177,7 +181,8 @@ def program(rep, index):
     session = Session(index)
     dirs = ["", "map", "net", "net/client", "net/server", "pub", "pub/server"]
     orders = {"as enumerated": dirs, "reversed": list(reversed(dirs)), "rotated": dirs[3:] + dirs[:3],
-              "leaves first": ["pub/server", "net/server", "net/client", "pub", "net", "map", ""]}
+              "leaves first": ["pub/server", "net/server", "net/client", "pub", "net", "map", ""],
+              "map first": ["map", "pub", "", "net", "net/client", "net/server", "pub/server"]}
     baselines = {}
     for oname, order in orders.items():
         # the output directory is pre-populated with unknown contents in the first evaluation (every path of it
@@ -216,7 +221,14 @@ def program(rep, index):
             rep.ob("C18.P1 generator-succeeds-on-a-valid-tree", inst, True, "two consecutive runs completed")
             r1, r2 = o.value
             nd = r1.nondeterminism + r2.nondeterminism
-            rep.ob("C18.P2 no-nondeterministic-source-consulted", inst, not nd, "consulted: %s" % nd if nd else "no hash/id/random/time/environment read on this run")
+            # a consulted source matters when it reaches the output: as a value inside a written path or text, as a test
+            # the run forked on, or as an order (a sort over a set that ties)
+            reaching = [w for w in nd if w.startswith("sorted()") or w in o.path()
+                        or any(w in h.get("tag", "") for r_ in (r1, r2) for h in r_.holes.values())]
+            if nd and not reaching:
+                rep.note("C18.P2: %s consulted on %s but neither a written path or text nor a branch depends on it" % (sorted(set(nd)), inst))
+            rep.ob("C18.P2 no-nondeterministic-source-reaches-the-output", inst, not reaching,
+                   "reaches the written files: %s" % reaching if reaching else "no hash/id/random/time/environment value in any written path or text, no branch on one")
             f1 = {f["path"]: f["content"] for f in r1.files}
             f2 = {f["path"]: f["content"] for f in r2.files}
             rep.ob("C18.P3 second-run-on-the-same-instance-is-identical", inst, f1 == f2 and len(r1.files) == len(r2.files),
@@ -395,6 +407,12 @@ def static_rules(rep, index, set_order_witness=None):
                         set_typed_attrs.add(t.attr)
                     elif isinstance(t, ast.Name):
                         set_typed_names.setdefault(name, set()).add(t.id)
+    d1 = [o for o in rep.obs if not o.ok and o.rule.startswith("C18.D1 ")]
+    if d1 and not any((not o.ok) and o.rule.startswith("C18.P2 ") for o in rep.obs):
+        # who-may-call is a sufficient condition only: the source must reach a written file to matter
+        del rep.obs[:]
+        raise AnalysisError("C18.D1: %s (%s) but in no evaluation of the reference tree does such a value reach a written path or text "
+                            "-- undecided" % (d1[0].instance, d1[0].loc))
     rep.ob("C18.D1 nondeterminism-scan", "%d generator modules" % len(mods), True, "no import of random/time/uuid/..., no hash()/id(), no environment read")
     # iterations over set-typed values must end in an order-insensitive sink or go through sorted()
     n_iter = 0
